@@ -21,7 +21,9 @@ CLS_YAML = [
         {"decl": "static int count()"}, {"decl": "Cls * clone() +owner(caller)"},
         {"decl": "int add(const Cls & other, Cls * third)"},
         # objects returned by value, plain and const qualified (docs/classes.rst, classes.yaml getClassCopy)
-        {"decl": "Cls dup() const"}, {"decl": "const Cls cdup() const"}]},
+        {"decl": "Cls dup() const"}, {"decl": "const Cls cdup() const"},
+        # member variables (docs/classes.rst "Member Variables"): getter and setter, read-only, renamed
+        {"decl": "int value"}, {"decl": "int ro +readonly"}, {"decl": "double other +name(alt)"}]},
     {"decl": "Cls * make(int v) +owner(caller)"},
     {"decl": "const Cls fresh(int v)"},
 ]
@@ -30,6 +32,8 @@ CLS_HPP = """
 class Cls {
 public:
     int value;
+    int ro;
+    double other;
     explicit Cls(int v);
     ~Cls();
     int get() const;
@@ -48,7 +52,7 @@ const Cls fresh(int v);
 
 CLS_CPP = """
 static int ncls_ = 0;
-Cls::Cls(int v) : value(v) { ncls_++; vt_live(1);
+Cls::Cls(int v) : value(v), ro(2 * v), other(v + 0.5) { ncls_++; vt_live(1);
     vt_begin("LibEnter", "Cls::Cls"); vt_target("ns1::Cls::Cls(int)"); vt_int(v); vt_end();
     vt_begin("LibExit", "Cls::Cls"); vt_target("ns1::Cls::Cls(int)"); vt_obj(this); vt_end(); }
 Cls::~Cls() { ncls_--; vt_live(-1);
@@ -78,7 +82,7 @@ int Cls::add(const Cls &other, Cls *third) {
     vt_begin("LibEnter", "Cls::add"); vt_target("ns1::Cls::add(const Cls&,Cls*)"); vt_obj(this); vt_obj(&other); vt_obj(third); vt_end();
     int rv = value + 10 * other.value + 100 * third->value;
     vt_begin("LibExit", "Cls::add"); vt_target("ns1::Cls::add(const Cls&,Cls*)"); vt_int(rv); vt_end(); return rv; }
-Cls::Cls() : value(0) { ncls_++; vt_live(1); }
+Cls::Cls() : value(0), ro(0), other(0.0) { ncls_++; vt_live(1); }
 Cls Cls::dup() const { Cls rv; rv.value = value + 2000; return rv; }
 const Cls Cls::cdup() const { Cls rv; rv.value = value + 3000; return rv; }
 const Cls fresh(int v) { Cls rv; rv.value = v; return rv; }
@@ -409,9 +413,68 @@ CLS_DRIVER = r"""
     INV("SUB_ns1_Cls_count", "ns1::Cls::count()"); vt_end();
     rv = SUB_ns1_Cls_count();
     RET("SUB_ns1_Cls_count", "ns1::Cls::count()"); vt_int(rv); vt_end();
+    /* member accessors (specs/Members.tla): wrapper-side events; the library's get()/set() give its own view */
+    #define MSET_I(m, h, v) vt_begin("MemberSet", m); vt_obj((h).addr); vt_int(v); vt_end()
+    #define MGET_I(m, h, v) vt_begin("MemberGet", m); vt_obj((h).addr); vt_int(v); vt_end()
+    #define MSET_D(m, h, v) vt_begin("MemberSet", m); vt_obj((h).addr); vt_dbl(v); vt_end()
+    #define MGET_D(m, h, v) vt_begin("MemberGet", m); vt_obj((h).addr); vt_dbl(v); vt_end()
+    { int g; double x;
+      g = SUB_ns1_Cls_get_value(&b); MGET_I("value", b, g);
+      g = SUB_ns1_Cls_get_ro(&b); MGET_I("ro", b, g);
+      x = SUB_ns1_Cls_get_alt(&b); MGET_D("alt", b, x);
+      MSET_I("value", b, 31); SUB_ns1_Cls_set_value(&b, 31);
+      INV("SUB_ns1_Cls_get", "ns1::Cls::get()"); vt_obj(b.addr); vt_end();
+      rv = SUB_ns1_Cls_get(&b);
+      RET("SUB_ns1_Cls_get", "ns1::Cls::get()"); vt_int(rv); vt_end();
+      g = SUB_ns1_Cls_get_value(&b); MGET_I("value", b, g);
+      g = SUB_ns1_Cls_get_value(&c); MGET_I("value", c, g);
+      g = SUB_ns1_Cls_get_ro(&b); MGET_I("ro", b, g);
+      INV("SUB_ns1_Cls_set", "ns1::Cls::set(int)"); vt_obj(c.addr); vt_int(-6); vt_end();
+      SUB_ns1_Cls_set(&c, -6);
+      RET("SUB_ns1_Cls_set", "ns1::Cls::set(int)"); vt_end();
+      g = SUB_ns1_Cls_get_value(&c); MGET_I("value", c, g);
+      MSET_D("alt", c, 2.25); SUB_ns1_Cls_set_alt(&c, 2.25);
+      x = SUB_ns1_Cls_get_alt(&c); MGET_D("alt", c, x);
+      x = SUB_ns1_Cls_get_alt(&d); MGET_D("alt", d, x);
+      g = SUB_ns1_Cls_get_value(&d); MGET_I("value", d, g);
+      g = SUB_ns1_Cls_get_ro(&d); MGET_I("ro", d, g);
+    }
     (void)e;
   }
 """
+
+
+def member_trace(events, cls="Cls"):
+    """The log of a run as a sequence of specs/Members.tla actions: constructor / destructor / get() / set() events of
+    the instrumented library, MemberSet / MemberGet events of the driver.  Objects are numbered in order of appearance."""
+    ids = {}
+
+    def oid(x):
+        return ids.setdefault(x, len(ids) + 1)
+
+    def num(x):
+        return int(x["v"])     # vt_dbl logs quarters
+    out = []
+    pend = {}
+    for e in events:
+        vals = [x for x in e.get("vals", []) if x["t"] != "target"]
+        ev, f = e["ev"], e["f"]
+        if ev == "LibEnter" and f == cls + "::" + cls:
+            pend["ctor"] = num(vals[0])
+        elif ev == "LibExit" and f == cls + "::" + cls and "ctor" in pend:
+            v = pend.pop("ctor")
+            out.append({"op": "New", "o": oid(vals[0]["v"]), "m": "", "v": 0, "init": {"value": v, "ro": 2 * v, "alt": 4 * v + 2}})
+        elif ev == "LibEnter" and f == cls + "::~" + cls:
+            out.append({"op": "Delete", "o": oid(vals[0]["v"]), "m": "", "v": 0})
+        elif ev == "LibEnter" and f == cls + "::set":
+            out.append({"op": "LSet", "o": oid(vals[0]["v"]), "m": "value", "v": num(vals[1])})
+        elif ev == "LibEnter" and f == cls + "::get":
+            pend["get"] = oid(vals[0]["v"])
+        elif ev == "LibExit" and f == cls + "::get" and "get" in pend:
+            out.append({"op": "LGet", "o": pend.pop("get"), "m": "value", "v": num(vals[0])})
+        elif ev in ("MemberSet", "MemberGet"):
+            out.append({"op": "WSet" if ev == "MemberSet" else "WGet", "o": oid(vals[0]["v"]), "m": f, "v": num(vals[1])})
+    return out
 
 CLS_SIGS = {
     "ns1::Cls::Cls(int)": {"params": [("int", "in")], "self": False, "result": "obj"},
@@ -560,4 +623,4 @@ def build_and_run_c(d, cases, with_class=True, nvals=4, options=None, extra_argv
             sig = tla_sig(c, tt, nsup, "c")
             label = "%s [%s]" % (tg, cname)
         traces.append({"sig": sig, "events": ev, "label": label})
-    return {"traces": traces, "problems": problems, "yaml": y}
+    return {"traces": traces, "problems": problems, "yaml": y, "members": member_trace(events) if with_class else []}
